@@ -276,6 +276,14 @@ Theorem C03_point_charge_block_entry :
 Proof. exact (@point_charge_block_entry). Qed.
 Print Assumptions C03_point_charge_block_entry.
 
+(* the component hypothesis csum3 c <= l of the two theorems above holds for every shell that
+   uses the default Cartesian component order (contractions.py:379-385) *)
+Theorem C03_default_components_ok :
+  forall (F : Type) (s : shell F) (i : nat),
+  s_comps s = nil -> i < length (comps_of s) -> csum3 (nth i (comps_of s) (0, 0, 0)) <= s_l s.
+Proof. exact (@default_shell_comp_ok). Qed.
+Print Assumptions C03_default_components_ok.
+
 (* 5. nuclear_electron_attraction_integral: every entry is the sum over the charges of the
    point_charge_integral entries (any i, j; no hypothesis). *)
 Theorem C03_nuclear_is_sum :
